@@ -42,7 +42,7 @@ Next == ChooseOrder \/ WriteDoc \/ ShuffleRows
 InstanceOK == phase = "inst" =>
     /\ WellFormed(M0)
     /\ \A i \in 1..Len(M0.fams) : \A k \in 1..Len(M0.fams[i].cells) : M0.fams[i].cells[k] \in 1..Len(I.vals)
-    /\ \A t \in 1..Len(I.vals) : Len(I.vals[t].dg) = 15 /\ ~Tie(I.vals, t)
+    /\ \A t \in 1..Len(I.vals) : Len(I.vals[t].dg) = 17 /\ ~Tie(I.vals, t)
     /\ ToSet(I.permute) \subseteq ToSet(M0.nodes)
 ReorderKeepsMeaning == phase = "model" => WellFormed(M1) /\ ModelDiff(M1, M0) = {} /\ ModelDiff(M0, M1) = {}
 RoundTrip == phase \in {"doc", "doc2"} => /\ Readable(fmt, doc)
